@@ -60,7 +60,9 @@ func (sel *Selection) findSlice(segs []*Path) (*Selection, error) {
 			}
 			copy := *p
 			copy.parent = p
-			copy.Path = segs[i]
+			// segs[i] is relative to where the search started, the selection's path
+			// has to identify the location from the module down
+			copy.Path = &Path{Parent: p.Path, Meta: segs[i].Meta}
 			return &copy, nil
 		} else if meta.IsList(segs[i].Meta) || meta.IsContainer(segs[i].Meta) {
 			r := &ChildRequest{
